@@ -103,6 +103,15 @@ std::string run_vs(const Args& a) {
 					}
 				}
 			}
+			else if (o == "sa") {
+				// typed assignment whose right-hand side is the object the holder currently owns: h = value_cast<T>(h)
+				if (!h[i].empty()) {
+					if (const Small0* p0 = value_cast<Small0>(&h[i])) h[i] = *p0;
+					else if (const Small1* p1 = value_cast<Small1>(&h[i])) h[i] = *p1;
+					else if (const Large2* p2 = value_cast<Large2>(&h[i])) h[i] = *p2;
+					else if (const Large3* p3 = value_cast<Large3>(&h[i])) h[i] = *p3;
+				}
+			}
 			else if (o == "vc") {
 				int ty = std::atoi(t[2].c_str());
 				std::string r;
